@@ -478,6 +478,29 @@ func (w *World) growBig(r *Run) {
 		w.Disk.Remove(w.Path(last))
 		w.Files = w.Files[:last]
 	}
+	if t.Bool(1, 5, "at-the-slice-limit") {
+		// exactly as many slices as the format allows (32768), or one less
+		w.S = []int{4, 8, 16, 32}[t.Draw(4, "limit-S")]
+		others := 0
+		for _, f := range w.Files[1:] {
+			others += (len(f.Data) + w.S - 1) / w.S
+		}
+		for others > 30000 && len(w.Files) > 1 {
+			last := len(w.Files) - 1
+			others -= (len(w.Files[last].Data) + w.S - 1) / w.S
+			w.Disk.Remove(w.Path(last))
+			w.Files = w.Files[:last]
+		}
+		want := 32768 - t.Draw(2, "one-less") - others
+		data := expandContent(ckRandom, t.Draw64(0, "limit-seed"), want*w.S-t.Draw(w.S, "limit-tail"), w.S)
+		w.Files[0].Data = data
+		w.Disk.Put(w.Path(0), data)
+		w.N = others + want
+		if w.R > 8 {
+			w.R = 1 + t.Draw(8, "limit-R")
+		}
+		r.Probe("at-the-slice-limit")
+	}
 	if w.N > 256 {
 		r.Probe(">256-slices")
 	}
